@@ -30,4 +30,11 @@ PROPS = {
                     technique="property-based fault-sequence testing (rapid) of tm.WithGlobalTx against a reference model of the statement, with a scripted in-process coordinator",
                     text="Generated tuples (callback outcome, role, retry counts, begin reaction, k transport errors then ok/failure result, cancellation point; thorough: no reply) are run through the real tm.WithGlobalTx against a scripted fake coordinator attached at the getty seam; the journal of begin/commit/rollback attempts per xid and the return value (nil / error / re-raised panic / crash / hang) are compared with a reference model written from the statement. Sampling of the tuple space (≈10^4 tuples), no proof.",
                     note="Trusted: faketc (coordinator stand-in), the reference model in props/c04; real backoff sleeps are kept. Under cancellation only the weak reading is enforced (DESIGN §5 C04).")),
+    "C07": dict(pkg="./props/c07", level="exploration",
+                quick=dict(checks=1500, shards=2, watchdog=600),
+                thorough=dict(checks=20000, shards=16, watchdog=3000),
+                manifest=dict(engine="faketc",
+                    technique="program generation (scope trees) checked against a reference interpreter of the propagation semantics; exhaustive enumeration of all two-level trees; round trip of xids through the real gRPC/gin/dubbo integration code",
+                    text="Generated scope trees (depth ≤3, fan-out ≤2, 6 propagation modes, outcomes, error propagation, shared or fresh contexts, contexts carried by the real gRPC interceptor pair / gin middleware (httptest) / dubbo filter pair with each accepted key spelling) are executed with the real tm.WithGlobalTx against the fake coordinator; xid seen per scope, entry failures, begin/commit/rollback per xid and the enclosing context after each inner scope are compared with a reference interpreter. All 576 two-level trees × outcome combinations are enumerated. Sampling beyond that.",
+                    note="Trusted: the reference interpreter in props/c07 (written from the documented semantics in pkg/tm/constant.go), faketc. gin rejects requests without xid by design; such hops are modelled as hand-built fresh contexts.")),
 }
